@@ -192,7 +192,7 @@ package nbhttp
 
 // ---- end of a handler: head and body flushed, connection closed iff the request asked for it or the flush failed, response buffers given back (C09, C10, C11)
 //@ func (*ServerProcessor).flushResponse
-//@   props C09 C10 C11
+//@   props C09 C10 C11 C16
 //@   safety index slice nil div assert panic make
 //@   requires parser != nil && parser.Engine != nil && res != nil && res.request != nil && res.Parser != nil && ResOwn(res) && (!res.headEncoded ==> res.buffer == nil)
 //@   ensures released: old(parser.Conn) != nil ==> res.buffer == nil && res.bodyBuffer == nil                       // prop C11
@@ -203,6 +203,8 @@ package nbhttp
 //@   ensures hijack: old(res.hijacked) ==> gOut == old(gOut) && gCloses == old(gCloses)                               // prop C10
 //@   ensures counts: gServed == old(gServed) && gExec == old(gExec)                                                   // prop C10
 //@   assigns everything
+//@   note keep-alive (C16): after a response that keeps the connection, the read deadline is renewed to a clock reading + KeepaliveTime
+//@   at before:SetReadDeadline#1 assert keepalive: clockv(inst(arg_t.wall, arg_t.ext) - engine.KeepaliveTime)   // prop C16
 
 // ---- ReadFrom: head first, then the reader's bytes (sendfile when the connection offers it)
 //@ func (*Response).ReadFrom
@@ -315,6 +317,11 @@ package nbhttp
 //@   props C06 C07 C08 C11
 //@   safety index slice nil div assert panic make
 //@   requires ParserInv(p) && ParserRest(p)
+//@   note strictness of line ends (C08), stated at every state change: the lenient trailer-key state is entered only when trailers were declared or at the end of a trailer line - otherwise the last chunk must be followed by CR LF; a state that expects LF is entered on CR only, and the states that follow a line end are entered on LF only
+//@   at before:nextState#* assert tail: arg_state == stateBodyTrailerHeaderKeyBefore ==> len(p.trailer) > 0 || p.state == stateBodyTrailerHeaderValueLF   // prop C08
+//@   at before:nextState#* assert cr: arg_state == stateProtoLF || arg_state == stateStatusLF || arg_state == stateHeaderValueLF || arg_state == stateHeaderOverLF || arg_state == stateBodyChunkSizeLF || arg_state == stateBodyChunkDataLF || arg_state == stateBodyTrailerHeaderValueLF || arg_state == stateTailLF ==> c == 13   // prop C08
+//@   at before:nextState#* assert lf: p.state == stateProtoLF || p.state == stateStatusLF || p.state == stateHeaderValueLF || p.state == stateHeaderOverLF || p.state == stateBodyChunkSizeLF || p.state == stateBodyChunkDataLF || p.state == stateBodyTrailerHeaderValueLF || p.state == stateTailLF ==> c == 10   // prop C08
+//@   at before:handleMessage#3 assert lf: c == 10   // prop C08
 //@   ensures rest: result == nil && !p.gUp ==> ParserRest(p)                                                            // prop C08
 //@   ensures own: p.state != stateClose && p.bytesCached != nil ==> liveP[p.bytesCached]                                // prop C11
 //@   ensures freed: old(p.bytesCached) != nil && p.bytesCached != old(p.bytesCached) ==> !liveP[old(p.bytesCached)]       // prop C11
